@@ -12,6 +12,7 @@ REG.assumptions += [
     'scipy RBFInterpolator reproduces its data at the training nodes and is a function of (data, kwargs) (the kernel is replaced by a recording stub)',
     'P <= 2 phases, E <= 2 solutes; history length and grid sizes symbolic; PBM state satisfies PBM_INV and max >= 10*min (invariant of '
     'PopulationBalanceModel construction / re-mesh / extension, needed because fromDict rebuilds the PBM through its constructor)',
+    'RBFKernel contract: with normalisation the training inputs spread in every dimension (column range > 0; the code divides by it); 2 feature columns, N training points symbolic',
 ]
 REG.undecided += ['a trained surrogate reproduces its training data AT the training points: the kernel side is proved (RBFKernel hands the interpolator every training '
                   'point and queries it through the same affine map), the interpolation property of scipy RBFInterpolator is assumed, and the feature-vector construction '
